@@ -1,9 +1,61 @@
-(* Further operations, added layer by layer. *)
+(* Operations beyond comparison/arithmetic: unification, lists, built-ins, renaming. *)
 open Model
 type nonrec string = String.t
 open Sexp
 open Conv
 
+let sexp_of_str (s : str) = A (atom_of_str s)
+let sexp_of_bool b = A (atom_of_bool b)
+let sexp_of_n n = A (string_of_n n)
+
+let rec useq fuel ss = function
+  | [] -> Ok (Some ss)
+  | L [a; b] :: rest ->
+    (match unify fuel (term_of a) (term_of b) ss with
+     | Ok (Some ss') -> useq fuel ss' rest
+     | r -> r)
+  | x :: _ -> bad ("useq pair: " ^ Sexp.to_string x)
+
+let rule_of = function
+  | L [A "rule"; h; b] -> { r_head = term_of h; r_body = goal_of b }
+  | x -> bad ("rule: " ^ Sexp.to_string x)
+let sexp_of_rule r = L [A "rule"; sexp_of_term r.r_head; sexp_of_goal r.r_body]
+
+let opt_terms = function A "none" -> None | ts -> Some (terms_of ts)
+
 let run_case (fuel : nat) (c : Sexp.t) : (string * Sexp.t * Sexp.t option) option =
+  let same m = Some ("", m, Some m) in
+  let model_only m = Some ("", m, None) in
   match c with
+  | L [A "unify"; a; b; ss] ->
+    model_only (sexp_of_res (sexp_of_opt sexp_of_ss) (unify fuel (term_of a) (term_of b) (ss_of ss)))
+  | L (A "useq" :: ss :: pairs) ->
+    model_only (sexp_of_res (sexp_of_opt sexp_of_ss) (useq fuel (ss_of ss) pairs))
+  | L [A "replace"; t; ss] ->
+    model_only (sexp_of_res sexp_of_term (replace_variables fuel (term_of t) (ss_of ss)))
+  | L [A "bip"; A name; ts; ss] ->
+    (match run_bip fuel (str_of_atom name) (opt_terms ts) (ss_of ss) with
+     | Ok r -> Some (utf8_of_str r.br_out,
+                     L [A "ok"; sexp_of_opt sexp_of_ss r.br_sol; A (if r.br_cut then "cut" else "nocut")], None)
+     | Panic -> model_only (A "panic")
+     | OutOfFuel -> model_only (A "fuel"))
+  | L [A "mll"; A vbar; ts] ->
+    same (sexp_of_term (make_linked_list (bool_of_atom vbar) (terms_of ts)))
+  | L [A "mlot"; ts] ->
+    same (sexp_of_term (make_list_of_terms (terms_of ts)))
+  | L [A "show"; t] ->
+    model_only (sexp_of_str (show_term (term_of t)))
+  | L [A "key"; t] ->
+    model_only (sexp_of_res sexp_of_str (term_key (term_of t)))
+  | L [A "rename-term"; A ctr; t] ->
+    let (t', (_, ctr')) = rename_term (term_of t) ([], n_of_string ctr) in
+    model_only (L [sexp_of_term t'; sexp_of_n ctr'])
+  | L [A "rename-goal"; A ctr; g] ->
+    model_only (sexp_of_res (fun (g', (_, ctr')) -> L [sexp_of_goal g'; sexp_of_n ctr'])
+                  (rename_goal (goal_of g) ([], n_of_string ctr)))
+  | L [A "rename-rule"; A ctr; r] ->
+    model_only (sexp_of_res (fun (r', (_, ctr')) -> L [sexp_of_rule r'; sexp_of_n ctr'])
+                  (rename_rule (rule_of r) ([], n_of_string ctr)))
+  | L [A "make-query"; ts] ->
+    model_only (sexp_of_res (fun (g, ctr) -> L [sexp_of_goal g; sexp_of_n ctr]) (make_query (terms_of ts)))
   | _ -> None
